@@ -83,7 +83,7 @@ structure St where
   lpc : LPc
   setNormal : Bool
   held : Option NodeAction    -- a join/leave handler parked on the full queue, holding c.mu
-  failSend : Bool             -- environment: sending a ResizeInstruction fails
+  failNodes : List Nat        -- environment: target nodes for which sending a ResizeInstruction fails
   -- ghost flags (never read by the code paths): make the excluded regions of the partial theorems explicit
   abortHit : Bool             -- an abort cleared currentJob while the listener was handling that job
   staleNormal : Bool          -- NORMAL was set while an action was still queued
@@ -93,7 +93,7 @@ def cap : Nat := 10
 
 def init (coord : Nat) (others : List Nat) : St :=
   { coord := coord, cstate := .normal, nodes := coord :: others, jobs := [], cur := none, queue := [],
-    lpc := .idle, setNormal := false, held := none, failSend := false, abortHit := false, staleNormal := false }
+    lpc := .idle, setNormal := false, held := none, failNodes := [], abortHit := false, staleNormal := false }
 
 /-! ### helpers -/
 
@@ -161,7 +161,7 @@ inductive Label where
   | leave (n : Nat) (planOk : Bool)             -- API.RemoveNode n; planOk: the trial plan can be built
   | complete (j : Nat) (node : Nat) (err : Bool) -- ResizeInstructionComplete
   | abort                                       -- API.ResizeAbort
-  | failsend (b : Bool)                         -- environment switch
+  | failsend (ns : List Nat)                    -- environment switch: SendTo fails for these target nodes
   | lTop | lAfterDrain | lIdle
   | lGen (plan : Option (List Nat))             -- none: the planner fails; some p: nodes that must fetch data
   | lGenErr
@@ -252,15 +252,25 @@ def stepRStart (s : St) (k : Nat) : Option St :=
     else none
   | none => none
 
-def runGo (j : Job) (failSend : Bool) : Job :=
+/-- The nodes that get a ResizeInstruction: the pending ones. -/
+def pendingOf (ids : List (Nat × IdSt)) : List Nat :=
+  (ids.filter (fun p => p.2 == .pending)).map (·.1)
+
+/-- `distributeResizeInstructions` returns an error: at least one instruction goes to a node for which
+SendTo fails.  (The code sends in map order and stops at the first failure; which instructions were
+sent before it is not observable in the job state machine, the outcome is: ANY failing send aborts.) -/
+def sendFails (ids : List (Nat × IdSt)) (fail : List Nat) : Bool :=
+  (pendingOf ids).any (fun n => fail.contains n)
+
+def runGo (j : Job) (fail : List Nat) : Job :=
   if !hasPending j.ids then { j with buf := offer j.buf .done, run := .finished }
-  else if failSend then { j with buf := offer j.buf .aborted, run := .finished }
+  else if sendFails j.ids fail then { j with buf := offer j.buf .aborted, run := .finished }
   else { j with run := .finished }
 
 def stepRGo (s : St) (k : Nat) : Option St :=
   match s.jobs[k]? with
   | some j =>
-    if j.run = .started then some { s with jobs := updJob s.jobs k (fun j => runGo j s.failSend) }
+    if j.run = .started then some { s with jobs := updJob s.jobs k (fun j => runGo j s.failNodes) }
     else none
   | none => none
 
@@ -313,7 +323,7 @@ def stepCore (s : St) : Label → Option St
   | .leave n ok => stepLeave s n ok
   | .complete k n e => stepComplete s k n e
   | .abort => stepAbort s
-  | .failsend b => some { s with failSend := b }
+  | .failsend ns => some { s with failNodes := ns }
   | .lTop => stepLTop s
   | .lAfterDrain => stepLAfterDrain s
   | .lIdle => stepLIdle s
